@@ -130,6 +130,9 @@ func report(o *checkOpts, prog *Program, results []*UnitResult, genFails map[str
 			break
 		}
 		if _, ok := byName[n]; !ok {
+			if o.unit != "" {
+				continue // a filtered development run generates only part of the ledger
+			}
 			unit := n[:strings.Index(n, "#")]
 			if _, failed := genFails[unit]; failed {
 				continue
